@@ -4,7 +4,13 @@ import (
 	"bytes"
 	"encoding/json"
 	"fmt"
+	"go/ast"
+	"go/build"
+	"go/token"
+	"io/fs"
+	"path/filepath"
 	"reflect"
+	"sort"
 )
 
 func sprint(v interface{}) string { return fmt.Sprint(v) }
@@ -38,3 +44,17 @@ func maxI64(a, b int64) int64 {
 }
 
 func reflectValue(v interface{}) reflect.Value { return reflect.ValueOf(v) }
+
+type fsFileInfo = fs.FileInfo
+
+func sortStrings(s []string) { sort.Strings(s) }
+
+// buildOK reports whether the file's build constraints match this platform (go/build's rules,
+// without cgo).
+func buildOK(f *ast.File, fset *token.FileSet) bool {
+	name := filepath.Base(fset.File(f.Pos()).Name())
+	ctx := build.Default
+	ctx.CgoEnabled = false
+	ok, err := ctx.MatchFile(filepath.Dir(fset.File(f.Pos()).Name()), name)
+	return err == nil && ok
+}
